@@ -289,6 +289,9 @@ def gen_reply_table(rng, prog, n_names=None, force_modes=None):
             # both methods take one unmarked `Binary` payload (a JSON string on the wire, not raw bytes).  Marking only
             # one of the two `sv::payload(raw)` is an invalid program since the fix d781708 (vlib/mutants.py: reply-mixed-raw-*)
             sig = [intern_type(prog, T.BINARY)]
+        elif c < 0.52:
+            # one typed payload of a nested sequence / option type
+            sig = [intern_type(prog, rng.choice([T.vec(T.vec(T.U32)), T.option(T.vec(T.option(T.U32))), T.vec(T.vec(T.STRING)), T.vec(T.option(T.vec(T.U32)))]))]
         else:
             sig = [intern_type(prog, T.random_type(rng)) for _ in range(rng.choice([1, 1, 2, 3]))]
         table["names"][nm] = {"cover": cover, "payload": sig}
